@@ -316,6 +316,10 @@ pub enum Op {
         slices: bool,
         #[serde(default)]
         ragged: u8,
+        /// some channels are given the *same slice object* as their predecessor (aliased stereo / dual mono); the
+        /// twin gets equal data in separate buffers
+        #[serde(default)]
+        alias: bool,
     },
     /// in-range ratio change. `rel` is relative to the original ratio.
     SetRatio { rel: f64, ramp: bool, relative_api: bool },
@@ -333,7 +337,7 @@ pub enum Op {
 
 impl Op {
     pub fn process() -> Op {
-        Op::Process { path: Path::IntoBuffer, valid: None, slack_in: 0, slack_out: 0, slices: false, ragged: 0 }
+        Op::Process { path: Path::IntoBuffer, valid: None, slack_in: 0, slack_out: 0, slices: false, ragged: 0, alias: false }
     }
     pub fn kind_code(&self) -> u8 {
         match self {
